@@ -45,11 +45,11 @@ def run(report, tier, only=None):
     report.extra["probes"] = probes
     report.extra["deviation_bound"] = k
     report.rule = (
-        "E1: every assignment with <= %d non-default dimensions of the 26-dimension scene/config lattice "
+        "E1: every assignment with <= %d non-default dimensions of the %d-dimension scene/config lattice "
         "(vmc/gen/scenes.py) is compiled with write_font._generate_color_font, saved, reloaded; the glyph "
         "O-SHAPE reaches is evaluated with the COLRv1 point semantics and compared with the scene-model "
         "picture on a 24x24 lattice plus 7x7 witnesses per source layer; distinct = paint-format set of "
-        "the emitted graph / error class" % k
+        "the emitted graph / error class" % (k, len(DIMS))
     )
     report.assumptions += [
         "fontTools decompiles COLR/CPAL/glyf/CFF correctly; skia-pathops Path.contains is correct",
